@@ -304,6 +304,50 @@ def run(ctx, repo):
                                 '%s sets eliminated = False for an athlete without testing that they have not retired: a retired athlete is '
                                 'let back in and their next jump is accepted' % f.name, 'leader retires in a jump-off, rival fails')
     ctx.floor('reinstatement sites', n_re, 2)
+    # has_retired recognises every cell retired() can leave: the letter is appended to the current cell (`cell += 'r'`), which may
+    # already hold failures ('xr', 'xxr'), so the reader must test the end of the cell (endswith / last character / containment),
+    # never equality of the whole cell
+    hr = jm.get('has_retired')
+    if hr is None:
+        raise AnalysisError('anchor vanished: Jumper.has_retired')
+    appends = any(isinstance(a, ast.AugAssign) and isinstance(a.value, ast.Constant) and a.value.value == 'r' for a in ast.walk(jm['retired']))
+    suffix_test = any(
+        (isinstance(c, ast.Call) and call_name(c) == 'endswith' and c.args and isinstance(c.args[0], ast.Constant) and c.args[0].value == 'r')
+        or (isinstance(c, ast.Compare) and isinstance(c.ops[0], ast.In) and isinstance(c.left, ast.Constant) and c.left.value == 'r')
+        or (isinstance(c, ast.Compare) and isinstance(c.ops[0], ast.Eq) and isinstance(c.comparators[0], ast.Constant) and c.comparators[0].value == 'r'
+            and isinstance(c.left, ast.Subscript) and isinstance(c.left.value, ast.Subscript))
+        for c in ast.walk(hr))
+    whole_eq = [c for c in ast.walk(hr) if isinstance(c, ast.Compare) and isinstance(c.ops[0], ast.Eq) and any(
+        (isinstance(x, ast.Constant) and x.value == 'r') for x in ast.walk(c.comparators[0]))
+        and not (isinstance(c.left, ast.Subscript) and isinstance(c.left.value, ast.Subscript))]
+    if appends and (whole_eq or not suffix_test):
+        ctx.finding('R6', '%s::%s.has_retired::whole-cell comparison' % (HJ, JUMPER), HJ, hr.lineno,
+                    "retired() appends 'r' to the current cell, which can already hold failures ('xr', 'xxr'), but has_retired %s: an athlete who "
+                    'retires after a failure at the same height does not count as retired, is reinstated into a jump-off and jumps again'
+                    % ('compares the whole cell with it (`%s`)' % unparse(whole_eq[0]) if whole_eq else 'does not test the end of the cell'),
+                    "card cell 'xr', then a tie for first")
+    else:
+        ctx.ok('R6', "has_retired tests the end of the cell, matching retired()'s append")
+    # the first bar height starts the competition unconditionally: scheduled -> started depends on nothing but the state
+    sbh = [f for f in mod.cls(COMP).body if isinstance(f, ast.FunctionDef) and f.name == 'set_bar_height']
+    if not sbh:
+        raise AnalysisError('anchor vanished: set_bar_height')
+    starts = [n for n in ast.walk(sbh[0]) if isinstance(n, ast.If) and any(
+        isinstance(a, ast.Assign) and any(isinstance(t, ast.Attribute) and t.attr == 'state' for t in a.targets)
+        and isinstance(a.value, ast.Constant) and a.value.value == 'started' for a in n.body)]
+    for n in starts:
+        t = n.test
+        plain = isinstance(t, ast.Compare) and len(t.ops) == 1 and isinstance(t.ops[0], ast.Eq) and 'state' in ast.unparse(t.left) \
+            and isinstance(t.comparators[0], ast.Constant) and t.comparators[0].value == 'scheduled'
+        if plain:
+            ctx.ok('R4', "set_bar_height: scheduled -> started depends on the state alone")
+        else:
+            ctx.finding('R4', '%s::%s.set_bar_height::start depends on more than the state' % (HJ, COMP), HJ, n.lineno,
+                        "the first bar height starts the competition only when `%s`: otherwise the height is accepted and logged while the state "
+                        "stays 'scheduled', so athletes can still be added after the first bar" % unparse(t), 'set_bar_height on an empty start list, then add_jumper')
+    if not starts:
+        ctx.finding('R4', '%s::%s.set_bar_height::never starts' % (HJ, COMP), HJ, sbh[0].lineno, "set_bar_height no longer moves 'scheduled' to 'started'")
+
     # only a failure below the limit and a new bar re-open the round for an athlete: a reinstatement must not clear `dismissed`
     clearers = set()
     for f in ast.walk(mod.tree):
